@@ -40,11 +40,17 @@ type Part struct {
 	Name []string `json:"name"`
 	Qty  []string `json:"qty"`
 }
+// array whose NAME extends the name of the array "items" (kind prefixname)
+type ItemY struct {
+	W []string `json:"w"`
+}
 type Doc struct {
 	Top        []string `json:"top"`
 	Tag        []string `json:"tag"`
+	ItemsX     []string `json:"itemsx,omitempty"` // top-level field whose name extends "items"
 	Items      []Item   `json:"items"`
 	Parts      []Part   `json:"parts"`
+	ItemsY     []ItemY  `json:"itemsy,omitempty"`
 	PartsFirst bool     `json:"parts_first,omitempty"` // order in which the two sibling arrays are walked
 	ViaMap     bool     `json:"via_map,omitempty"`     // hand the document over as map[string]interface{} (JSON style)
 }
@@ -52,16 +58,20 @@ type Doc struct {
 // struct forms: walkDocument visits struct fields in declaration order, so the layout of the
 // sub-documents is determined by the input (a Go map would be walked in random key order)
 type docItemsFirst struct {
-	Top   []string `json:"top"`
-	Tag   []string `json:"tag"`
-	Items []Item   `json:"items"`
-	Parts []Part   `json:"parts"`
+	Top    []string `json:"top"`
+	Tag    []string `json:"tag"`
+	ItemsX []string `json:"itemsx"`
+	Items  []Item   `json:"items"`
+	Parts  []Part   `json:"parts"`
+	ItemsY []ItemY  `json:"itemsy"`
 }
 type docPartsFirst struct {
-	Top   []string `json:"top"`
-	Tag   []string `json:"tag"`
-	Parts []Part   `json:"parts"`
-	Items []Item   `json:"items"`
+	Top    []string `json:"top"`
+	Tag    []string `json:"tag"`
+	ItemsX []string `json:"itemsx"`
+	Parts  []Part   `json:"parts"`
+	Items  []Item   `json:"items"`
+	ItemsY []ItemY  `json:"itemsy"`
 }
 
 type Op struct {
@@ -83,7 +93,7 @@ type Q struct {
 }
 
 type In struct {
-	Kind      string `json:"kind"` // ws | xdepth | sibling | disjmin | mustnotonly
+	Kind      string `json:"kind"` // ws | xdepth | sibling | disjmin | mustnotonly | prefixname
 	ModelOnly bool   `json:"model_only,omitempty"`
 	Disk      bool   `json:"disk,omitempty"`
 	Opts      int    `json:"opts,omitempty"`
@@ -102,6 +112,7 @@ var vocab = map[string][]string{
 	"color": {"red", "blue"}, "size": {"s", "m"},
 	"k": {"a", "b"}, "v": {"1", "2"},
 	"name": {"n1", "n2"}, "qty": {"q1", "q2"},
+	"itemsx": {"p", "q"}, "w": {"g", "h"},
 }
 
 func vals(r *vrand.R, f string) []string {
@@ -128,8 +139,14 @@ func count(r *vrand.R, max int) int {
 	}
 }
 
-func genDoc(r *vrand.R) *Doc {
+func genDoc(r *vrand.R, prefixNames bool) *Doc {
 	d := &Doc{Top: vals(r, "top"), Tag: vals(r, "tag"), PartsFirst: r.Bool()}
+	if prefixNames {
+		d.ItemsX = vals(r, "itemsx")
+		for i := count(r, 2); i > 0; i-- {
+			d.ItemsY = append(d.ItemsY, ItemY{W: vals(r, "w")})
+		}
+	}
 	for i := count(r, 3); i > 0; i-- {
 		it := Item{Color: vals(r, "color"), Size: vals(r, "size")}
 		if r.Chance(2, 3) {
@@ -145,7 +162,13 @@ func genDoc(r *vrand.R) *Doc {
 		}
 	}
 	// a map is walked in random key order: only when at most one sibling array has elements
-	d.ViaMap = (len(d.Items) == 0 || len(d.Parts) == 0) && r.Chance(1, 3)
+	nonEmpty := 0
+	for _, n := range []int{len(d.Items), len(d.Parts), len(d.ItemsY)} {
+		if n > 0 {
+			nonEmpty++
+		}
+	}
+	d.ViaMap = nonEmpty <= 1 && r.Chance(1, 3)
 	return d
 }
 
@@ -159,6 +182,8 @@ var itemLeaves = []leafSpec{{[]string{"items"}, "color"}, {[]string{"items"}, "s
 var subLeaves = []leafSpec{{[]string{"items", "subs"}, "k"}, {[]string{"items", "subs"}, "v"}}
 var partLeaves = []leafSpec{{[]string{"parts"}, "name"}, {[]string{"parts"}, "qty"}}
 var nestedGroups = [][]leafSpec{itemLeaves, subLeaves, partLeaves}
+var itemsXLeaf = leafSpec{nil, "itemsx"}
+var itemsYLeaf = leafSpec{[]string{"itemsy"}, "w"}
 
 func term(r *vrand.R, l leafSpec) Q {
 	t := vrand.Pick(r, vocab[l.f])
@@ -325,6 +350,23 @@ func genFinding(r *vrand.R, kind string) Q {
 			}
 			return wrap(r, Q{K: "bool", Should: qs, Min: min})
 		}
+	case "prefixname":
+		// a clause on the array "items" combined with one on a field / array whose name merely
+		// starts with "items"
+		a := clauseIn(r, vrand.Pick(r, []scope{scopes[1], scopes[2]}))
+		other := itemsXLeaf
+		if r.Bool() {
+			other = itemsYLeaf
+		}
+		qs := []Q{a, term(r, other)}
+		if r.Chance(1, 3) {
+			qs = append(qs, anyLeaf(r, true))
+		}
+		vrand.Shuffle(r, qs)
+		if r.Chance(1, 4) {
+			return Q{K: "bool", Must: qs}
+		}
+		return wrap(r, Q{K: "conj", Qs: qs})
 	default: // mustnotonly
 		q := Q{K: "bool", MustNot: []Q{clauseIn(r, vrand.Pick(r, scopes))}}
 		if r.Chance(1, 4) {
@@ -338,6 +380,7 @@ func genFinding(r *vrand.R, kind string) Q {
 }
 
 func genHistory(r *vrand.R, in *In) {
+	prefixNames := in.Kind == "prefixname"
 	in.NIDs = r.Range(2, 7)
 	nb := r.Range(1, 6)
 	for b := 0; b < nb; b++ {
@@ -347,7 +390,7 @@ func genHistory(r *vrand.R, in *In) {
 			if r.Chance(1, 5) {
 				ops = append(ops, Op{Del: true, ID: id})
 			} else {
-				ops = append(ops, Op{ID: id, Doc: genDoc(r)})
+				ops = append(ops, Op{ID: id, Doc: genDoc(r, prefixNames)})
 			}
 		}
 		in.Batches = append(in.Batches, ops)
@@ -367,6 +410,15 @@ func gen(f vh.Flags, r *vrand.R, emit func(In)) {
 		in.Queries = append(in.Queries, Q{K: "all"}, sameArrayConj(r), Q{K: "conj", Qs: []Q{sameArrayConj(r), anyLeaf(r, true)}})
 		for k := 0; k < 7; k++ {
 			in.Queries = append(in.Queries, genWS(r, r.Range(1, 3), false))
+		}
+		emit(in)
+	}
+	// names that extend the name of a nested array (judged like kind ws)
+	for i := 0; i < f.N(12, 480); i++ {
+		in := In{Kind: "prefixname"}
+		genHistory(r, &in)
+		for k := 0; k < 6; k++ {
+			in.Queries = append(in.Queries, genFinding(r, "prefixname"))
 		}
 		emit(in)
 	}
@@ -417,8 +469,12 @@ func buildMapping(nested bool) mapping.IndexMapping {
 	parts := sub()
 	parts.AddFieldMappingsAt("name", kw())
 	parts.AddFieldMappingsAt("qty", kw())
+	dm.AddFieldMappingsAt("itemsx", kw())
+	itemsy := sub()
+	itemsy.AddFieldMappingsAt("w", kw())
 	dm.AddSubDocumentMapping("items", items)
 	dm.AddSubDocumentMapping("parts", parts)
+	dm.AddSubDocumentMapping("itemsy", itemsy)
 	m.DefaultMapping = dm
 	return m
 }
@@ -439,6 +495,16 @@ func (d *Doc) value() interface{} {
 		}
 		if d.Tag != nil {
 			m["tag"] = strs(d.Tag)
+		}
+		if d.ItemsX != nil {
+			m["itemsx"] = strs(d.ItemsX)
+		}
+		var itemsy []interface{}
+		for _, y := range d.ItemsY {
+			itemsy = append(itemsy, map[string]interface{}{"w": strs(y.W)})
+		}
+		if itemsy != nil {
+			m["itemsy"] = itemsy
 		}
 		var items []interface{}
 		for _, it := range d.Items {
@@ -465,9 +531,9 @@ func (d *Doc) value() interface{} {
 		return m
 	}
 	if d.PartsFirst {
-		return docPartsFirst{Top: d.Top, Tag: d.Tag, Parts: d.Parts, Items: d.Items}
+		return docPartsFirst{Top: d.Top, Tag: d.Tag, ItemsX: d.ItemsX, Parts: d.Parts, Items: d.Items, ItemsY: d.ItemsY}
 	}
-	return docItemsFirst{Top: d.Top, Tag: d.Tag, Items: d.Items, Parts: d.Parts}
+	return docItemsFirst{Top: d.Top, Tag: d.Tag, ItemsX: d.ItemsX, Items: d.Items, Parts: d.Parts, ItemsY: d.ItemsY}
 }
 
 func docName(i int) string { return "d" + strconv.Itoa(i) }
@@ -611,7 +677,8 @@ func zs(xs []int64) cf.T { return cf.ListOf(xs, cf.Z) }
 // the vocabulary is defined once per cases file (Preamble) and referred to by name: byte-list
 // literals are slow to elaborate
 var knownStrings = []string{"top", "tag", "items", "subs", "parts", "color", "size", "k", "v", "name", "qty",
-	"x", "y", "t", "u", "red", "blue", "s", "m", "a", "b", "1", "2", "n1", "n2", "q1", "q2", "zz"}
+	"x", "y", "t", "u", "red", "blue", "s", "m", "a", "b", "1", "2", "n1", "n2", "q1", "q2", "zz",
+	"itemsx", "itemsy", "w", "p", "q", "g", "h"}
 var strName = map[string]string{}
 
 func preamble() string {
@@ -654,11 +721,15 @@ func docTerm(d *Doc) cf.T {
 	for _, p := range d.Parts {
 		parts = append(parts, nodeTerm([][2]interface{}{{"name", p.Name}, {"qty", p.Qty}}, nil))
 	}
-	arrs := [][2]interface{}{{"items", items}, {"parts", parts}}
+	var itemsy []cf.T
+	for _, y := range d.ItemsY {
+		itemsy = append(itemsy, nodeTerm([][2]interface{}{{"w", y.W}}, nil))
+	}
+	arrs := [][2]interface{}{{"items", items}, {"parts", parts}, {"itemsy", itemsy}}
 	if d.PartsFirst && !d.ViaMap {
 		arrs[0], arrs[1] = arrs[1], arrs[0]
 	}
-	return nodeTerm([][2]interface{}{{"top", d.Top}, {"tag", d.Tag}}, arrs)
+	return nodeTerm([][2]interface{}{{"top", d.Top}, {"tag", d.Tag}, {"itemsx", d.ItemsX}}, arrs)
 }
 
 func qTerm(q Q) cf.T {
@@ -682,6 +753,7 @@ var classOf = map[string]string{
 	"sibling":     "nested-bool-sibling-arrays",
 	"disjmin":     "nested-disj-min-cross-scope",
 	"mustnotonly": "nested-bool-mustnot-only",
+	"prefixname":  "nested-prefix-name",
 }
 
 func exec(in In) vh.Result {
@@ -881,6 +953,7 @@ func main() {
 		Rule: "random documents over a tiny vocabulary with arrays of objects (0/1/many elements, items[].subs[] two levels, sibling arrays items/parts, missing and multi-valued fields), " +
 			"an update/delete history in 1-6 batches on scorch (in memory, or on disk with forced merges / reopen), the arrays mapped nested and the same history on a flat mapping; " +
 			"per history 10 queries: match-all, same-array conjunctions, nested conjunction as a clause of a larger query, conjunction/disjunction/boolean trees over nested and top-level term leaves (kind ws: shapes whose clauses are combined per parent today), " +
+			"kind prefixname: conjunctions of a clause on the array items with one on the top-level field itemsx / the array itemsy, whose NAMES extend \"items\"; " +
 			"plus four small kinds for the known-finding shapes (boolean across depths, across sibling arrays, disjunction min>=2 across scopes, must-not-only boolean), each with a mechanism-only twin; " +
 			"non-trivial: the index holds sub-documents, some query has hits, and nested and flat answers differ or the history updates/deletes a document",
 		ShardSize: 16,
